@@ -1,7 +1,7 @@
 """C11 -- bulk/interrupt IN endpoints deliver the stream exactly once, in order."""
 from ..ir import E
 from .. import q
-from ..fsm import state_outcomes, reachable
+from ..fsm import state_outcomes, reachable, lit_atoms, assignments, holds
 
 TITLE = 'bulk IN exactly-once'
 FLOOR = 20
@@ -27,6 +27,20 @@ INTOK = {('self.active', True), ('self.tokenizer.is_in', True), ('self.tokenizer
 def run(ctx):
     for mps in ((64,) if ctx.tier != 'thorough' else (8, 64, 512)):
         check(ctx, mps)
+
+
+def _can_fire(items, assume):
+    """Indices of the items (assignments / edges) whose guard holds for some valuation of the guard atoms under `assume`."""
+    atoms = []
+    for it in items:
+        for l in it.guard:
+            atoms += list(lit_atoms(l))
+    out = set()
+    for asg in assignments(atoms, assume):
+        for i, it in enumerate(items):
+            if holds(it.guard, asg):
+                out.add(i)
+    return out
 
 
 def check(ctx, mps):
@@ -135,6 +149,18 @@ def check(ctx, mps):
         not any(b.state == fz[0].state and q.atoms(b) == q.atoms(fz[0]) for b in bt)
     ctx.ob('C11.follow-up-zlp', 'USBInTransferManager.ack-wait.zlp' + tag, ok, fz[0].loc if fz else None,
            'a full-size last packet of an ended stream is followed by a ZLP from the same (now empty) buffer: %s' % [q.fmt(e)[:200] for e in fz])
+    # the owed ZLP has priority over everything else that an ACK can trigger (a packet of the NEXT transfer may already
+    # be waiting in the other buffer): exact evaluation of the ack-wait state with the ZLP condition true
+    zl = {ACK: True, 'self.generate_zlps': True, '%d == %s' % (mps, rf): True, re_: True, 'self.discard': False}
+    o = state_outcomes(fsm, A, zl)
+    swap = [a for a in bt if q.state_of(a) == A] + [a for a in ir.assigns if a.state == (fsm.id, A) and a.lhs.canon() == re_]
+    live = [swap[i] for i in sorted(_can_fire(swap, zl))]
+    ctx.ob('C11.follow-up-zlp', 'USBInTransferManager.ack-wait.zlp-wins' + tag, set(o) == {R} and not live,
+           live[0].loc if live else fsm.state_loc[A],
+           'when the acknowledged packet was full-size and ended the stream (ZLP owed) the manager must go back to the staged '
+           'state with the same, now empty, buffer whatever else holds -- in particular when the other buffer already holds a '
+           'packet: outcomes %s; buffer-switch / stream-ended writers that can fire: %s' % (
+               sorted(map(str, o)), [q.fmt(a)[:200] for a in live]))
     ls = [a for a in ir.drivers('self.packet_stream.last', exact=True) if q.state_of(a) == S]
     ok = len(ls) == 1 and ls[0].rhs.canon() == '(1 + send_position) == ' + rf
     ctx.ob('C11.send-walk', 'USBInTransferManager.send.last' + tag, ok, ls[0].loc if ls else None, 'last marks the final byte of the fill count')
